@@ -1,6 +1,6 @@
 #!/bin/sh
 # usage: tools/benign_batch.sh <dir-with-k/patch.diff> <log>   -- runs benign_run.sh on every patch of the directory, serialised by a lock
-exec 9>/tmp/wt-benign.lock
+exec 9>${WTB:-/tmp/wt-benign}.lock
 flock 9
 for d in $(ls -d "$1"/*/ | sort -V); do
   [ -f "$d/patch.diff" ] || continue
